@@ -137,6 +137,19 @@ def run(ctx):
                         ch.append("mh " + "|".join(steps))
     ctx.exhaustive["all_splits_into_<=3_chunks_of_short_inputs_per_feeder"] = not ctx.quick
     ctx.correspond(ch, "chunking")
+    # the stream functions of blockfeeder.py: every mode, both directions, both paddings, several read sizes
+    st = []
+    for kind in ["ecb", "cbc", "cfb", "ofb", "ctr"]:
+        for d in ("enc", "dec"):
+            for pad in ("default", "none"):
+                for n in ([0, 15, 16, 17, 32, 48, 100] if ctx.quick else list(range(0, 70)) + [128, 1000]):
+                    for bs in ([1, 16, 17, 8192] if ctx.quick else [1, 7, 16, 17, 64, 8192]):
+                        data = g.rbytes(rng, n)
+                        if n and rng.random() < 0.3:
+                            data = data[:-1] + bytes([rng.choice([0, 1, 2, 15, 16, 17])])       # looks like padding
+                        st.append(f"ms {kind} {hx(g.rbytes(rng, 16))} {hx(g.rbytes(rng, 16))} {rng.randrange(2 ** 128)} "
+                                  f"{rng.choice([1, 2, 4, 8, 16])} {d} {pad} {bs} {hx(data) or '-'}")
+    ctx.correspond(st, "stream-functions")
     # property on the real code against the independent reference
     ctx.check_props([f"prop.aesblock {k} {b}" for k, b in blocks], "prop.aesblock")
     ctx.check_props(mode_props(rng, 300 if ctx.quick else 6000), "prop.aesmode")
